@@ -429,6 +429,29 @@ def check_c17(prop, tier, seed):
         if r[0] != "done":
             v.violation(f"C17/{name}/suspends-with-only-synchronous-arguments",
                         {"engine": "scenario", "cfg": {"items": len(big)}, "observed": repr(r)[:200]})
+    # synchronous callables whose results merely *look* like something to wait for (a thread-pool future, a
+    # generator): they are plain values -- handed back as they are, nothing is awaited, no loop is needed
+    import concurrent.futures as cf  # noqa: PLC0415
+
+    def plain_values():
+        fut = cf.Future()
+        fut.set_result(1)
+        pending = cf.Future()
+        gen = (x for x in ())
+        return [fut, pending, gen]
+
+    for val in plain_values():
+        kind = type(val).__name__
+        for name, mk, pick in (("sync", lambda v=val: L_.sync(lambda: v)(), lambda r: r),
+                               ("map", lambda v=val: L_.list(L_.map(lambda x: v, [0])), lambda r: r[0]),
+                               ("apply", lambda v=val: L_.apply(lambda: v), lambda r: r),
+                               ("reduce", lambda v=val: L_.reduce(lambda a, b: v, [0, 0]), lambda r: r)):
+            acct = Accounting()
+            r = Task(mk(), acct).step()
+            runs += 1
+            if r[0] != "done" or pick(r[1]) is not val:
+                v.violation(f"C17/{name}/plain-result-of-synchronous-callable-awaited-or-replaced",
+                            {"engine": "scenario", "cfg": {"result_kind": kind}, "observed": repr(r)[:200]})
     # importing and using the library needs no running loop and creates none
     code = ("import asyncio, asyncio.events as ev, sys; sys.path.insert(0, %r); import asyncstdlib as a\n"
             "assert ev._get_running_loop() is None\n"
@@ -722,6 +745,22 @@ BIG_N = 1000   # nlargest/nsmallest with a large n on a stream twice as long: th
 NSRC = {"zip": 2, "map": 2, "compress": 2, "zip_longest": 2, "merge": 3, "chain": 2}
 
 
+import operator  # noqa: E402
+
+# the same tools with argument *kinds* a fast path might single out: a float start value, C-level reducers
+# and key functions.  name -> (tool whose window applies, call)
+VARIANTS = {
+    "sum#float-start": ("sum", lambda L, S: L.sum(S[0], 0.0)),
+    "sum#no-start": ("sum", lambda L, S: L.sum(S[0])),
+    "reduce#builtin-max": ("reduce", lambda L, S: L.reduce(max, S[0])),
+    "reduce#operator-add": ("reduce", lambda L, S: L.reduce(operator.add, S[0])),
+    "max#attrgetter-key": ("max", lambda L, S: L.max(S[0], key=operator.attrgetter("k"))),
+    "map#builtin-function": ("map", lambda L, S: L.map(max, S[0], S[1])),
+    "filter#builtin-bool": ("filter", lambda L, S: L.filter(bool, S[0])),
+    "accumulate#operator-add": ("accumulate", lambda L, S: L.accumulate(S[0], operator.add)),
+}
+
+
 class WItem(Item):
     """An item whose sums keep nothing of it."""
 
@@ -759,9 +798,14 @@ class ForgetfulSource:
 def c20_run(args):
     tool, n, every = args
     L = tm.load_lib()
+    variant = None
     if tool.endswith("#big"):
         par, win = ({"key": tool.startswith("nlargest"), "n": BIG_N}, BIG_N)
         tool = tool.split("#")[0]
+    elif tool in VARIANTS:
+        variant = tool
+        tool = VARIANTS[variant][0]
+        par, win = STREAM_TOOLS[tool]
     else:
         par, win = STREAM_TOOLS[tool]
     nsrc = NSRC.get(tool, 1)
@@ -794,6 +838,8 @@ def c20_run(args):
     fns = {"func": lambda *a: None, "key": lambda x: x.k, "pred": lambda x: x.k != 0}
     rec = Recorder()
     thunk = tm.build_call(L, tool, par, S, lambda name: fns[name], rec)
+    if variant:
+        thunk = lambda: VARIANTS[variant][1](L, S)  # noqa: E731
     if is_agg:
         Task(thunk(), acct).run()
         do_census()
@@ -812,7 +858,7 @@ def c20_run(args):
             if k % every == 0:
                 do_census()
         do_census()
-    return {"cfg": {"tool": tool, "param": win, "nsrc": nsrc, "n": n}, "ev": census}
+    return {"cfg": {"tool": tool, "param": win, "nsrc": nsrc, "n": n, "variant": variant or ""}, "ev": census}
 
 
 def groupby_retention(args):
@@ -902,6 +948,7 @@ def check_c20(prop, tier, seed):
     STREAM_TOOLS["nlargest#big"] = ({"key": True, "n": BIG_N}, BIG_N)
     STREAM_TOOLS["nsmallest#big"] = ({"key": False, "n": BIG_N}, BIG_N)
     jobs += [("nlargest#big", 2 * BIG_N, 250), ("nsmallest#big", 2 * BIG_N, 250)]
+    jobs += [(name, n, 1 if n <= 50 else max(1, n // 100)) for name in VARIANTS for n in sizes]
     with _pool() as pool:
         traces = pool.map(c20_run, jobs, chunksize=1)
         traces += pool.map(groupby_retention, [(n, kf) for n in sizes for kf in ("none", "def")], chunksize=1)
@@ -909,7 +956,7 @@ def check_c20(prop, tier, seed):
     rejected, st = validate("RetentionObs", traces)
     for idx, matched in sorted(rejected.items()):
         tr = traces[idx]
-        v.violation(f"C20/{tr['cfg']['tool']}/retention-grows-or-exceeds-window",
+        v.violation(f"C20/{tr['cfg']['tool']}/retention-grows-or-exceeds-window" + (f"+{tr['cfg']['variant'].split('#')[1]}" if tr["cfg"].get("variant") else ""),
                     {"engine": "retention", "spec": "RetentionObs", "cfg": tr["cfg"], "step": matched,
                      "matched_prefix": tr["ev"][max(0, matched - 3): matched], "rejected_event": tr["ev"][matched] if matched < len(tr["ev"]) else None})
     # tee: the window is the lead of the fastest over the slowest live child (TeeObs census)
